@@ -29,8 +29,38 @@
 (*          res |-> ScDec(type, b)]                                 (C33)  *)
 (* Engine M checks RoundTrip / PrefixFree / DecSound (ScaleCodec) on every *)
 (* case, and that distinct headers get distinct hash tokens.               *)
+(*                                                                         *)
+(* Extension (wire layouts of the GRANDPA gossip, consensus digests,       *)
+(* justifications, and the protobuf block request / response):             *)
+(*   CtGrandpaMsg  lib/grandpa gossip enum: 0 vote (round u64, set id u64, *)
+(*                 signed message = stage u8, hash, u32, sig[64], id[32]), *)
+(*                 1 commit (round, set id, vote, Vec<vote>, Vec<(sig,     *)
+(*                 id)>), 2 neighbour (version enum: 1 = round, set id,    *)
+(*                 u32), 3 catch-up request (round, set id), 4 catch-up    *)
+(*                 response (set id, round, Vec<signed vote> x2, hash,     *)
+(*                 u32)  -- C14 "GRANDPA votes, commits", C33 "GRANDPA     *)
+(*                 messages".  The stage is a plain byte here: which       *)
+(*                 stages a DECODER must refuse is not pinned by C33.      *)
+(*   CtCommit / CtJustification   (hash, u32, Vec<signed vote>) / (round   *)
+(*                 u64, commit); CtPrimJust(w) adds Vec<Header> and has    *)
+(*                 block numbers of w bytes (generic in the code)          *)
+(*                 -- C14 "commits and justifications"                     *)
+(*   CtBabeCons    1 next epoch (Vec<(key[32], u64)>, randomness[32]),     *)
+(*                 2 on-disabled u32, 3 next config (version enum: 1 =     *)
+(*                 c1 u64, c2 u64, allowed-slots enum 0/1/2)               *)
+(*   CtGrandpaCons 1 scheduled (Vec<(key, u64)>, delay u32), 2 forced (u32,*)
+(*                 auths, delay), 3 on-disabled u64, 4 pause u32, 5 resume *)
+(*                 u32    -- C14 "consensus digests"                       *)
+(*   CtBlockRequestEnc / CtBlockResponseEnc   explicit protobuf layouts on *)
+(*                 specs/lib/PbWire.tla -- C14 "block request/response     *)
+(*                 messages ... match an independent reference encoder     *)
+(*                 byte for byte"                                          *)
+(* Wire messages get EVERY truncation and structure-aware perturbations    *)
+(* (each discriminant, each length prefix: +-1, widened, huge) with the    *)
+(* verdict of ScDec / CtPbDec  -- C33 "mutated valid encodings, and        *)
+(* crafted length prefixes".                                               *)
 (***************************************************************************)
-EXTENDS ScaleCodec
+EXTENDS ScaleCodec, PbWire
 
 CONSTANTS TyNames      \* which of the named types this configuration enumerates
 
@@ -50,7 +80,45 @@ CtBabePre == ScEnum("BabePre", << [i |-> 1, t |-> CtVrf], [i |-> 2, t |-> ScTupl
 CtVote == ScTuple(<<CtHash, ScU(4)>>)
 CtSignedVote == ScTuple(<<CtVote, ScU(64), ScU(32)>>)
 
-CtType(name) == CASE name = "header" -> CtHeader [] name = "announce" -> CtAnnounce [] name = "handshake" -> CtHandshake
+(* ---- GRANDPA gossip (lib/grandpa/message.go) -------------------------------------*)
+CtSignedMessage == ScTuple(<<ScU(1), CtHash, ScU(4), ScU(64), ScU(32)>>)
+CtVoteMessage == ScTuple(<<ScU(8), ScU(8), CtSignedMessage>>)
+CtAuthData == ScTuple(<<ScU(64), ScU(32)>>)
+CtCommitMessage == ScTuple(<<ScU(8), ScU(8), CtVote, ScSlice(CtVote), ScSlice(CtAuthData)>>)
+CtNeighbour == ScEnum("VersionedNeighbourPacket", << [i |-> 1, t |-> ScTuple(<<ScU(8), ScU(8), ScU(4)>>)] >>)
+CtCatchUpRequest == ScTuple(<<ScU(8), ScU(8)>>)
+CtCatchUpResponse == ScTuple(<<ScU(8), ScU(8), ScSlice(CtSignedVote), ScSlice(CtSignedVote), CtHash, ScU(4)>>)
+CtGrandpaMsg == ScEnum("GrandpaMessage", << [i |-> 0, t |-> CtVoteMessage], [i |-> 1, t |-> CtCommitMessage], [i |-> 2, t |-> CtNeighbour],
+                                            [i |-> 3, t |-> CtCatchUpRequest], [i |-> 4, t |-> CtCatchUpResponse] >>)
+(* ---- commits / justifications ---------------------------------------------------------*)
+CtCommit == ScTuple(<<CtHash, ScU(4), ScSlice(CtSignedVote)>>)
+CtJustification == ScTuple(<<ScU(8), CtCommit>>)
+CtPrimVote(w) == ScTuple(<<CtHash, ScU(w)>>)
+CtPrimSigned(w) == ScTuple(<<CtPrimVote(w), ScU(64), ScU(32)>>)
+CtPrimCommit(w) == ScTuple(<<CtHash, ScU(w), ScSlice(CtPrimSigned(w))>>)
+CtPrimJust(w) == ScTuple(<<ScU(8), CtPrimCommit(w), ScSlice(CtHeader)>>)
+CtPrimSignedMsg(w) == ScTuple(<<ScEnum("Message", << [i |-> 0, t |-> CtPrimVote(w)], [i |-> 1, t |-> CtPrimVote(w)], [i |-> 2, t |-> CtPrimVote(w)] >>),
+                                ScU(64), ScU(32)>>)
+(* ---- consensus digests (dot/types/consensus_digest.go) ------------------------------------*)
+CtAuthority == ScTuple(<<ScU(32), ScU(8)>>)
+CtUnit == ScTuple(<<>>)
+CtAllowedSlots == ScEnum("AllowedSlots", << [i |-> 0, t |-> CtUnit], [i |-> 1, t |-> CtUnit], [i |-> 2, t |-> CtUnit] >>)
+CtNextConfig == ScEnum("NextConfigDescriptor", << [i |-> 1, t |-> ScTuple(<<ScU(8), ScU(8), CtAllowedSlots>>)] >>)
+CtBabeCons == ScEnum("BabeConsensusLog", << [i |-> 1, t |-> ScTuple(<<ScSlice(CtAuthority), ScU(32)>>)], [i |-> 2, t |-> ScU(4)],
+                                            [i |-> 3, t |-> CtNextConfig] >>)
+CtGrandpaCons == ScEnum("GrandpaConsensusLog", << [i |-> 1, t |-> ScTuple(<<ScSlice(CtAuthority), ScU(4)>>)],
+                                                  [i |-> 2, t |-> ScTuple(<<ScU(4), ScSlice(CtAuthority), ScU(4)>>)],
+                                                  [i |-> 3, t |-> ScU(8)], [i |-> 4, t |-> ScU(4)], [i |-> 5, t |-> ScU(4)] >>)
+
+GossipNames == {"gvote", "gcommit", "gneighbour", "gcatchupreq", "gcatchupresp"}
+PbNames == {"blockrequest", "blockresponse"}
+
+CtType(name) == CASE name = "header" -> CtHeader
+                  [] name \in GossipNames -> CtGrandpaMsg
+                  [] name = "gcommitj" -> CtCommit [] name = "gjust" -> CtJustification
+                  [] name = "primjust" -> CtPrimJust(4) [] name = "primjust64" -> CtPrimJust(8)
+                  [] name = "primsignedmsg" -> CtPrimSignedMsg(4)
+                  [] name = "babecons" -> CtBabeCons [] name = "grandpacons" -> CtGrandpaCons [] name = "announce" -> CtAnnounce [] name = "handshake" -> CtHandshake
                   [] name = "body" -> CtBody [] name = "txmsg" -> CtTxMsg [] name = "babepre" -> CtBabePre
                   [] name = "vote" -> CtVote [] name = "signedvote" -> CtSignedVote [] name = "digestitem" -> CtDigestItem
 
@@ -72,8 +140,136 @@ HeaderVals == [j \in 1..(Len(Numbers) + Len(Digests)) |->
                  ELSE <<HB, ScAt(Numbers, j + 3), HC, HA, Digests[j - Len(Numbers)]>>]
 VrfVals == << <<Rep(4, 0), Rep(8, 0), Rep(32, 0), Rep(64, 0)>>, <<<<1, 2, 3, 4>>, <<1, 2, 3, 4, 5, 6, 7, 8>>, HB, Rep(64, 9)>>,
               <<Rep(4, 255), Rep(8, 255), HC, Rep(64, 255)>> >>
+
+(* ---- values of the extension ------------------------------------------------------------*)
+R0 == Rep(8, 0)
+R1 == <<1, 2, 3, 4, 5, 6, 7, 8>>
+R2 == Rep(8, 255)
+N0 == Rep(4, 0)
+N1 == <<1, 2, 3, 4>>
+N2 == Rep(4, 255)
+SigA == Rep(64, 0)
+SigB == [i \in 1..64 |-> 100 + i]
+SigC == Rep(64, 255)
+VoteA == <<HA, N0>>
+VoteB == <<HB, N1>>
+VoteC == <<HC, N2>>
+SVoteA == <<VoteA, SigA, HA>>
+SVoteB == <<VoteB, SigB, HC>>
+SVoteC == <<VoteC, SigC, HB>>
+AuthA == <<SigA, HA>>
+AuthB == <<SigB, HC>>
+AuthC == <<SigC, HB>>
+AuthsA == << <<HB, R1>> >>
+AuthsB == << <<HA, R0>>, <<HC, R2>>, <<HB, <<1, 0, 0, 0, 0, 0, 0, 0>>>> >>
+W8(n) == n \o Rep(4, 0)       \* a 4-byte number widened to 8 bytes
+PlainHeaders == <<HeaderVals[1], HeaderVals[13]>>    \* empty digests (internal/primitives/runtime has no digest item codec)
+GossipVals(name) ==
+  CASE name = "gvote" -> << [i |-> 0, v |-> <<R0, R0, <<<<0>>, HA, N0, SigA, HA>>>>], [i |-> 0, v |-> <<R1, R2, <<<<1>>, HB, N1, SigB, HC>>>>],
+                            [i |-> 0, v |-> <<R2, R1, <<<<2>>, HC, N2, SigC, HB>>>>] >>
+    [] name = "gcommit" -> << [i |-> 1, v |-> <<R0, R0, VoteA, <<>>, <<>>>>], [i |-> 1, v |-> <<R1, R2, VoteB, <<VoteB>>, <<AuthB>>>>],
+                              [i |-> 1, v |-> <<R2, R1, VoteC, <<VoteA, VoteC>>, <<AuthA, AuthC>>>>],
+                              [i |-> 1, v |-> <<R1, R1, VoteB, <<VoteA, VoteB>>, <<AuthB>>>>] >>
+    [] name = "gneighbour" -> << [i |-> 2, v |-> [i |-> 1, v |-> <<R0, R0, N0>>]], [i |-> 2, v |-> [i |-> 1, v |-> <<R1, R2, N1>>]],
+                                 [i |-> 2, v |-> [i |-> 1, v |-> <<R2, R1, N2>>]] >>
+    [] name = "gcatchupreq" -> << [i |-> 3, v |-> <<R0, R0>>], [i |-> 3, v |-> <<R1, R2>>], [i |-> 3, v |-> <<R2, R1>>] >>
+    [] name = "gcatchupresp" -> << [i |-> 4, v |-> <<R0, R0, <<>>, <<>>, HA, N0>>], [i |-> 4, v |-> <<R1, R2, <<SVoteB>>, <<SVoteA, SVoteC>>, HB, N1>>],
+                                   [i |-> 4, v |-> <<R2, R1, <<SVoteA, SVoteB>>, <<SVoteC>>, HC, N2>>] >>
+PrimSV(sv, w) == IF w = 4 THEN sv ELSE <<<<sv[1][1], W8(sv[1][2])>>, sv[2], sv[3]>>
+PrimJustVals(w) == << <<R0, <<HA, IF w = 4 THEN N0 ELSE W8(N0), <<>>>>, <<>>>>,
+                      <<R1, <<HB, IF w = 4 THEN N1 ELSE W8(N1), <<PrimSV(SVoteB, w)>>>>, <<PlainHeaders[1]>>>>,
+                      <<R2, <<HC, IF w = 4 THEN N2 ELSE R2, <<PrimSV(SVoteA, w), PrimSV(SVoteC, w)>>>>, <<PlainHeaders[2], PlainHeaders[1]>>>> >>
+BabeConsVals == << [i |-> 1, v |-> << <<>>, HA >>], [i |-> 1, v |-> <<AuthsA, HB>>], [i |-> 1, v |-> <<AuthsB, HC>>],
+                   [i |-> 2, v |-> N0], [i |-> 2, v |-> N1], [i |-> 2, v |-> N2],
+                   [i |-> 3, v |-> [i |-> 1, v |-> <<R0, R1, [i |-> 0, v |-> <<>>]>>]], [i |-> 3, v |-> [i |-> 1, v |-> <<R1, <<4, 0, 0, 0, 0, 0, 0, 0>>, [i |-> 1, v |-> <<>>]>>]],
+                   [i |-> 3, v |-> [i |-> 1, v |-> <<R2, R2, [i |-> 2, v |-> <<>>]>>]] >>
+GrandpaConsVals == << [i |-> 1, v |-> << <<>>, N0 >>], [i |-> 1, v |-> <<AuthsA, N1>>], [i |-> 1, v |-> <<AuthsB, N2>>],
+                      [i |-> 2, v |-> <<N1, AuthsA, N2>>], [i |-> 2, v |-> <<N2, AuthsB, N0>>], [i |-> 2, v |-> <<N0, <<>>, N1>>],
+                      [i |-> 3, v |-> R0], [i |-> 3, v |-> R1], [i |-> 3, v |-> R2], [i |-> 4, v |-> N0], [i |-> 4, v |-> N2],
+                      [i |-> 5, v |-> N1], [i |-> 5, v |-> N2] >>
+
+(* ---- protobuf layouts (dot/network/proto/api.v1.proto; sc-network-sync schema api.v1.proto) ---*)
+(* BlockRequest: 1 fields uint32 (the attribute byte in the MOST significant byte), oneof      *)
+(* from_block {2 hash bytes | 3 number bytes = little-endian u32}, 5 direction enum, 6 max_blocks *)
+(* value: [fields |-> 0..255, from |-> [k |-> "hash" | "number", b |-> bytes], dir |-> 0 | 1,    *)
+(*         max |-> BigNat below 2^32, zero = absent]                                            *)
+CtBlockRequestEnc(v) ==
+  PbScalar(1, BnTrim(<<0, 0, 0, v.fields>>)) \o PbLenField(IF v.from.k = "hash" THEN 2 ELSE 3, v.from.b)
+  \o PbScalar(5, BnFromInt(v.dir)) \o PbScalar(6, v.max)
+(* BlockData: 1 hash, 2 header (SCALE), 3 repeated body (each extrinsic SCALE-encoded as a byte  *)
+(* string), 4 receipt, 5 message queue, 6 justification, 7 is_empty_justification.              *)
+(* value: [hash, header |-> <<>> | <<header value>>, body |-> sequence of extrinsics (the wire   *)
+(* cannot tell "no body" from "no extrinsics"), receipt / mq |-> bytes (empty = absent),        *)
+(* just |-> <<>> absent | << <<>> >> present and empty | <<bytes>>]                              *)
+CtBlockDataEnc(d) ==
+  PbBytes(1, d.hash) \o (IF d.header = <<>> THEN <<>> ELSE PbLenField(2, ScEnc(CtHeader, d.header[1])))
+  \o PbRepeated(3, [i \in 1..Len(d.body) |-> ScEnc(ScBytes, d.body[i])]) \o PbBytes(4, d.receipt) \o PbBytes(5, d.mq)
+  \o (IF d.just = <<>> THEN <<>> ELSE IF d.just[1] = <<>> THEN PbVarintField(7, <<1>>) ELSE PbLenField(6, d.just[1]))
+CtBlockResponseEnc(v) == PbRepeated(1, [i \in 1..Len(v) |-> CtBlockDataEnc(v[i])])
+
+PbOk(v, enc, n) == [ok |-> TRUE, v |-> v, n |-> n, at |-> "", why |-> "", enc |-> enc]
+PbBad(at, why) == [ok |-> FALSE, v |-> <<>>, n |-> 0, at |-> at, why |-> why, enc |-> <<>>]
+(* semantic decoders (last occurrence of a scalar wins, unknown fields are skipped) *)
+CtBlockRequestDec(s) ==
+  LET p == PbParse(s) IN
+  IF ~p.ok THEN PbBad("pb", p.why)
+  ELSE LET F == {i \in 1..Len(p.fs) : p.fs[i].f \in {2, 3} /\ p.fs[i].wt = 2}
+           fl == PbLast(p.fs, 1, 0)
+           dr == PbLast(p.fs, 5, 0)
+           mx == PbLast(p.fs, 6, 0)
+       IN IF F = {} THEN PbBad("from", "missing")
+          ELSE LET x == p.fs[CHOOSE i \in F : \A j \in F : j <= i] IN
+               \* "number": the SCALE encoding of a u32 needs its 4 bytes (longer: left open, not generated)
+               IF x.f = 3 /\ Len(x.v) < 4 THEN PbBad("from", "number")
+               ELSE LET v == [fields |-> IF fl.has /\ Len(fl.v) >= 4 THEN fl.v[4] ELSE 0,
+                              from |-> [k |-> IF x.f = 2 THEN "hash" ELSE "number", b |-> x.v],
+                              dir |-> IF dr.has THEN BnToInt(dr.v) ELSE 0, max |-> IF mx.has THEN mx.v ELSE <<>>]
+                    IN PbOk(v, CtBlockRequestEnc(v), Len(s))
+CtBlockDataDec(b) ==
+  LET p == PbParse(b) IN
+  IF ~p.ok THEN PbBad("blockdata", p.why)
+  ELSE LET hd == PbLast(p.fs, 2, 2)
+           hr == ScDec(CtHeader, hd.v)
+           bs == PbAll(p.fs, 3, 2)
+           js == PbLast(p.fs, 6, 2)
+           ej == PbLast(p.fs, 7, 0)
+       IN IF hd.has /\ ~hr.ok THEN PbBad("header", hr.why)
+          ELSE IF \E i \in 1..Len(bs) : ~ScDec(ScBytes, bs[i]).ok THEN PbBad("body", "extrinsic")
+          ELSE PbOk([hash |-> PbLast(p.fs, 1, 2).v, header |-> IF hd.has THEN <<hr.v>> ELSE <<>>,
+                     body |-> [i \in 1..Len(bs) |-> ScDec(ScBytes, bs[i]).v],
+                     receipt |-> PbLast(p.fs, 4, 2).v, mq |-> PbLast(p.fs, 5, 2).v,
+                     just |-> IF js.has /\ js.v # <<>> THEN <<js.v>> ELSE IF ej.has /\ ej.v # <<>> THEN << <<>> >> ELSE <<>>], <<>>, Len(b))
+CtBlockResponseDec(s) ==
+  LET p == PbParse(s) IN
+  IF ~p.ok THEN PbBad("pb", p.why)
+  ELSE LET bs == PbAll(p.fs, 1, 2)
+           ds == [i \in 1..Len(bs) |-> CtBlockDataDec(bs[i])]
+       IN IF \E i \in 1..Len(ds) : ~ds[i].ok THEN ds[CHOOSE i \in 1..Len(ds) : ~ds[i].ok /\ \A j \in 1..(i - 1) : ds[j].ok]
+          ELSE LET v == [i \in 1..Len(ds) |-> ds[i].v] IN PbOk(v, CtBlockResponseEnc(v), Len(s))
+CtPbEnc(name, v) == IF name = "blockrequest" THEN CtBlockRequestEnc(v) ELSE CtBlockResponseEnc(v)
+CtPbDec(name, s) == IF name = "blockrequest" THEN CtBlockRequestDec(s) ELSE CtBlockResponseDec(s)
+
+BlockRequestVals == <<
+  [fields |-> 19, from |-> [k |-> "number", b |-> <<1, 0, 0, 0>>], dir |-> 0, max |-> <<1>>],
+  [fields |-> 1, from |-> [k |-> "hash", b |-> HB], dir |-> 1, max |-> <<128>>],
+  [fields |-> 255, from |-> [k |-> "number", b |-> Rep(4, 255)], dir |-> 0, max |-> <<>>],
+  [fields |-> 0, from |-> [k |-> "hash", b |-> HA], dir |-> 1, max |-> BnPred(BnPow2(32))],
+  [fields |-> 16, from |-> [k |-> "number", b |-> Rep(4, 0)], dir |-> 0, max |-> <<0, 1>>],
+  [fields |-> 128, from |-> [k |-> "hash", b |-> HC], dir |-> 0, max |-> <<127>>] >>
+BD1 == [hash |-> HB, header |-> <<HeaderVals[14]>>, body |-> << <<1, 2, 3>>, <<>>, Rep(130, 5) >>, receipt |-> <<>>, mq |-> <<>>, just |-> << <<9, 9>> >>]
+BD2 == [hash |-> HA, header |-> <<>>, body |-> <<>>, receipt |-> <<7>>, mq |-> <<8, 8>>, just |-> << <<>> >>]
+BD3 == [hash |-> HC, header |-> <<HeaderVals[1]>>, body |-> << <<>> >>, receipt |-> <<>>, mq |-> <<>>, just |-> <<>>]
+BD4 == [hash |-> HB, header |-> <<HeaderVals[18]>>, body |-> <<>>, receipt |-> <<>>, mq |-> <<>>, just |-> <<>>]
+BlockResponseVals == << <<>>, <<BD1>>, <<BD2, BD3>>, <<BD4, BD1, BD2>> >>
 CtVals(name) ==
   CASE name = "header" -> HeaderVals
+    [] name \in GossipNames -> GossipVals(name)
+    [] name = "gcommitj" -> << <<HA, N0, <<>>>>, <<HB, N1, <<SVoteB>>>>, <<HC, N2, <<SVoteA, SVoteC>>>> >>
+    [] name = "gjust" -> << <<R0, <<HA, N0, <<>>>>>>, <<R1, <<HB, N1, <<SVoteB>>>>>>, <<R2, <<HC, N2, <<SVoteA, SVoteC>>>>>> >>
+    [] name = "primjust" -> PrimJustVals(4) [] name = "primjust64" -> PrimJustVals(8)
+    [] name = "primsignedmsg" -> << <<[i |-> 0, v |-> VoteA], SigA, HA>>, <<[i |-> 1, v |-> VoteB], SigB, HC>>, <<[i |-> 2, v |-> VoteC], SigC, HB>> >>
+    [] name = "babecons" -> BabeConsVals [] name = "grandpacons" -> GrandpaConsVals
+    [] name = "blockrequest" -> BlockRequestVals [] name = "blockresponse" -> BlockResponseVals
     [] name = "announce" -> [j \in 1..Len(HeaderVals) |-> HeaderVals[j] \o <<j % 2 = 0>>]
     [] name = "handshake" -> << <<<<1>>, Rep(4, 0), HA, HB>>, <<<<4>>, <<1, 2, 3, 4>>, HB, HC>>, <<<<2>>, Rep(4, 255), HC, HA>>, <<<<9>>, <<0, 1, 0, 0>>, HB, HB>> >>
     [] name = "body" -> << <<>>, << <<>> >>, << <<1, 2, 3>> >>, << <<4>>, <<>>, Rep(64, 5) >> >>
@@ -86,11 +282,60 @@ CtVals(name) ==
 
 CtHeaderHash(v) == H(ScEnc(CtHeader, v))
 
+(* ---- structure-aware mutations of a wire message (C33: "mutated valid encodings, and crafted length prefixes") ---*)
+(* offsets (bytes BEFORE it) of every discriminant ("tag") and every length prefix ("len", n = declared count) *)
+RECURSIVE CtMarks(_, _, _), CtMarksSeq(_, _, _), CtMarksFields(_, _, _, _)
+CtMarksSeq(t, vs, off) == IF vs = <<>> THEN {} ELSE CtMarks(t, vs[1], off) \cup CtMarksSeq(t, Tail(vs), off + Len(ScEnc(t, vs[1])))
+CtMarksFields(fs, vs, ord, off) ==
+  IF ord = <<>> THEN {} ELSE CtMarks(fs[ord[1]], vs[ord[1]], off) \cup CtMarksFields(fs, vs, Tail(ord), off + Len(ScEnc(fs[ord[1]], vs[ord[1]])))
+CtMarks(t, v, off) ==
+  CASE t.k \in {"bytes", "str"} -> {[p |-> off, k |-> "len", n |-> Len(v)]}
+    [] t.k = "bool" -> {[p |-> off, k |-> "tag", n |-> 0]}
+    [] t.k = "opt" -> {[p |-> off, k |-> "tag", n |-> 0]} \cup (IF v = <<>> THEN {} ELSE CtMarks(t.t, v[1], off + 1))
+    [] t.k = "enum" -> {[p |-> off, k |-> "tag", n |-> 0]} \cup CtMarks(ScVariant(t, v.i).t, v.v, off + 1)
+    [] t.k = "slice" -> {[p |-> off, k |-> "len", n |-> Len(v)]} \cup CtMarksSeq(t.t, v, off + Len(ScCompactInt(Len(v))))
+    [] t.k = "arr" -> CtMarksSeq(t.t, v, off)
+    [] t.k = "struct" -> CtMarksFields(t.fs, v, ScFieldOrder(t.tags), off)
+    [] OTHER -> {}
+CtSplice(e, off, cut, ins) == SubSeq(e, 1, off) \o ins \o SubSeq(e, off + cut + 1, Len(e))
+CtTagVals == {0, 1, 2, 3, 4, 5, 6, 7, 128, 255}
+CtLenHeads(n) == {ScCompactInt(n + 1), <<2, 0, 4, 0>>, <<2, 0, 64, 0>>, <<254, 255, 255, 255>>, <<3, 0, 0, 0, 64>>, <<3, 255, 255, 255, 255>>,
+                  <<7, 0, 0, 0, 0, 1>>, <<19, 0, 0, 0, 0, 0, 0, 0, 1>>}
+                 \cup (IF n > 0 THEN {ScCompactInt(n - 1)} ELSE {}) \cup ScCompactWidened(BnFromInt(n))
+CtWireMutations(t, v) ==
+  LET e == ScEnc(t, v)
+      M == CtMarks(t, v, 0)
+  IN {[mut |-> "trunc", b |-> SubSeq(e, 1, k)] : k \in 0..(Len(e) - 1)}           \* EVERY truncation
+     \cup {[mut |-> "junk", b |-> e \o <<170>>], [mut |-> "valid", b |-> e]}
+     \cup UNION {{[mut |-> "tag", b |-> [e EXCEPT ![m.p + 1] = x]] : x \in CtTagVals \ {e[m.p + 1]}} : m \in {m \in M : m.k = "tag"}}
+     \cup UNION {{[mut |-> "len", b |-> CtSplice(e, m.p, Len(ScCompactInt(m.n)), h)] : h \in CtLenHeads(m.n)} : m \in {m \in M : m.k = "len"}}
+     \cup UNION {{[mut |-> "flip", b |-> [e EXCEPT ![q] = x]] : x \in FlipVals(e[q]) \ {e[q]}} : q \in FlipPos(e)}
+(* protobuf: every truncation, and what a peer can put around a valid request *)
+CtPbMutations(name, v) ==
+  LET e == CtPbEnc(name, v) IN
+  {[mut |-> "trunc", b |-> SubSeq(e, 1, k)] : k \in 0..(Len(e) - 1)} \cup {[mut |-> "valid", b |-> e]}
+  \cup (IF name # "blockrequest" THEN {}
+        ELSE {[mut |-> "unknown-field", b |-> e \o PbVarintField(9, <<5>>)], [mut |-> "unknown-field", b |-> PbLenField(15, <<1, 2>>) \o e],
+              [mut |-> "dup-max", b |-> e \o PbVarintField(6, <<3>>)],
+              [mut |-> "both-from", b |-> e \o PbLenField(2, HB)], [mut |-> "both-from", b |-> e \o PbLenField(3, <<9, 0, 0, 0>>)],
+              [mut |-> "no-from", b |-> PbScalar(1, BnTrim(<<0, 0, 0, v.fields>>)) \o PbScalar(6, v.max)],
+              [mut |-> "fixed-field", b |-> e \o PbKey(12, 5) \o <<1, 2, 3, 4>>], [mut |-> "fixed-field", b |-> e \o PbKey(12, 1) \o <<1, 2, 3, 4>>]}
+             \cup {[mut |-> "short-number", b |-> PbLenField(3, SubSeq(<<7, 0, 0>>, 1, k)) \o PbScalar(6, <<1>>)] : k \in 0..3})
+
 CtEncCase(name, i) == [op |-> "enc", ty |-> name, v |-> CtVals(name)[i]]
-CtDecCases(name, i) == {[op |-> "dec", ty |-> name, b |-> m.b, mut |-> m.mut] : m \in Mutations(CtType(name), CtVals(name)[i])}
+CtDecCases(name, i) ==
+  {[op |-> "dec", ty |-> name, b |-> m.b, mut |-> m.mut] :
+     m \in IF name \in GossipNames THEN CtWireMutations(CtType(name), CtVals(name)[i])
+           ELSE IF name \in PbNames THEN CtPbMutations(name, CtVals(name)[i])
+           ELSE Mutations(CtType(name), CtVals(name)[i])}
+(* a consensus digest travels as the payload of DigestItem::Consensus (index 4) under its engine id *)
+CtAsItem(name, v) == IF name = "babecons" THEN ScEnc(CtDigestItem, [i |-> 4, v |-> <<BABE, ScEnc(CtBabeCons, v)>>])
+                     ELSE IF name = "grandpacons" THEN ScEnc(CtDigestItem, [i |-> 4, v |-> <<FRNK, ScEnc(CtGrandpaCons, v)>>])
+                     ELSE <<>>
 CtResult(o) == IF o.op = "enc"
-               THEN [enc |-> ScEnc(CtType(o.ty), o.v), hash |-> IF o.ty = "header" THEN CtHeaderHash(o.v) ELSE <<>>]
-               ELSE ScDec(CtType(o.ty), o.b)
+               THEN [enc |-> IF o.ty \in PbNames THEN CtPbEnc(o.ty, o.v) ELSE ScEnc(CtType(o.ty), o.v),
+                     hash |-> IF o.ty = "header" THEN CtHeaderHash(o.v) ELSE <<>>, item |-> CtAsItem(o.ty, o.v)]
+               ELSE IF o.ty \in PbNames THEN CtPbDec(o.ty, o.b) ELSE ScDec(CtType(o.ty), o.b)
 CtStep(o) == /\ hist' = Append(hist, [o |-> o, res |-> CtResult(o)])
              /\ UNCHANGED <<done, part>>
 CtInit == hist = <<>> /\ done = FALSE /\ part \in TyNames
@@ -101,10 +346,43 @@ CtNext == \/ /\ ~done /\ Len(hist) < Depth
           \/ Finish
 CtSpec == CtInit /\ [][CtNext]_vars
 
+(* ---- random cases (generator, -simulate): random values of the SCALE wire layouts, and for the gossip enum random ---*)
+(* mutations of their encodings (RandVal / RandMut of ScaleCodec.tla); makes the quick tier depend on the seed and   *)
+(* the thorough tier explore values beyond the hand-picked ones                                                    *)
+CtGossipName(i) == CASE i = 0 -> "gvote" [] i = 1 -> "gcommit" [] i = 2 -> "gneighbour" [] i = 3 -> "gcatchupreq" [] OTHER -> "gcatchupresp"
+CtRandNames == <<"gossip", "gossip", "gcommitj", "gjust", "babecons", "grandpacons", "primsignedmsg">>
+CtRandCase(z) ==
+  LET nm == IF "dec" \in CaseKinds THEN "gossip" ELSE CtRandNames[RE(1..Len(CtRandNames), z)]
+      t == IF nm = "gossip" THEN CtGrandpaMsg ELSE CtType(nm)
+      v == RandVal(t, z)
+      ty == IF nm = "gossip" THEN CtGossipName(v.i) ELSE nm
+  IN IF "dec" \in CaseKinds
+     THEN LET m == RandMut(t, v, z) IN [op |-> "dec", ty |-> ty, b |-> m.b, mut |-> m.mut]
+     ELSE [op |-> "enc", ty |-> ty, v |-> v]
+CtInitRand == hist = <<>> /\ done = FALSE /\ part = "gossip"
+CtNextRand == (~done /\ Len(hist) < Depth /\ \E o \in {CtRandCase(Len(hist))} : CtStep(o)) \/ Finish
+CtSpecRand == CtInitRand /\ [][CtNextRand]_vars
+
 (* ---- laws -------------------------------------------------------------------*)
-CtCaseLaw(o) == LET t == CtType(o.ty) IN
-  IF o.op = "enc" THEN RoundTrip(t, o.v) /\ PrefixFree(t, o.v) /\ SuffixIndependent(t, o.v)
-  ELSE DecSound(t, o.b)
+(* protobuf layouts: the bytes parse back into ascending fields that re-serialise to the same bytes (canonical    *)
+(* form), the semantic decoder gives back the value, and every strict prefix either fails to parse or, cut at a   *)
+(* field boundary, decodes to a value whose canonical encoding is that prefix                                     *)
+CtPbEncLaw(name, v) ==
+  LET e == CtPbEnc(name, v)
+      p == PbParse(e)
+      r == CtPbDec(name, e)
+  IN /\ p.ok /\ PbAscending(p.fs) /\ PbUnparse(p.fs) = e
+     /\ r.ok /\ r.v = v /\ r.enc = e
+     /\ name = "blockresponse" => \A i \in 1..Len(p.fs) : p.fs[i].f = 1 /\ p.fs[i].wt = 2 /\ PbParse(p.fs[i].v).ok /\ PbAscending(PbParse(p.fs[i].v).fs)
+     /\ \A k \in 0..(Len(e) - 1) : LET q == CtPbDec(name, SubSeq(e, 1, k)) IN q.ok => q.enc = SubSeq(e, 1, k)
+(* an accepted input decodes to a value whose canonical encoding decodes to the same value *)
+CtPbDecLaw(name, b) == LET r == CtPbDec(name, b) IN r.ok => (LET q == CtPbDec(name, r.enc) IN q.ok /\ q.v = r.v /\ q.enc = r.enc)
+CtCaseLaw(o) ==
+  IF o.ty \in PbNames THEN (IF o.op = "enc" THEN CtPbEncLaw(o.ty, o.v) ELSE CtPbDecLaw(o.ty, o.b))
+  ELSE LET t == CtType(o.ty) IN
+       IF o.op = "enc" THEN RoundTrip(t, o.v) /\ PrefixFree(t, o.v) /\ SuffixIndependent(t, o.v)
+                            /\ (o.ty \in GossipNames => \A k \in 0..(Len(ScEnc(t, o.v)) - 1) : ~ScDec(t, SubSeq(ScEnc(t, o.v), 1, k)).ok)
+       ELSE DecSound(t, o.b)
 CtLaws == \A i \in 1..Len(hist) : CtCaseLaw(hist[i].o)
 (* distinct headers have distinct hashes (token injectivity = collision freeness) *)
 CtHashSeparates == (hist = <<>> /\ part = "header") =>
@@ -112,4 +390,17 @@ CtHashSeparates == (hist = <<>> /\ part = "header") =>
 (* the announce layout is the header layout followed by one bool *)
 CtAnnounceIsHeaderPlusBool == (hist = <<>> /\ part = "announce") =>
   \A j \in 1..Len(HeaderVals) : ScEnc(CtAnnounce, HeaderVals[j] \o <<TRUE>>) = ScEnc(CtHeader, HeaderVals[j]) \o <<1>>
+(* a consensus digest item is the tag 4, the engine id, and the log as a length-prefixed byte string *)
+CtConsensusEmbeds == (hist = <<>> /\ part \in {"babecons", "grandpacons"}) =>
+  \A j \in 1..Len(CtVals(part)) :
+     LET e == ScEnc(CtType(part), CtVals(part)[j])
+     IN CtAsItem(part, CtVals(part)[j]) = <<4>> \o (IF part = "babecons" THEN BABE ELSE FRNK) \o ScCompactInt(Len(e)) \o e
+(* the five gossip variants are told apart by their first byte; a commit is a compact justification: the same   *)
+(* votes and signatures as the justification's signed votes, regrouped                                         *)
+CtGossipTags == (hist = <<>> /\ part \in GossipNames) =>
+  \A j \in 1..Len(CtVals(part)) : ScEnc(CtGrandpaMsg, CtVals(part)[j])[1] = CtVals(part)[j].i
+(* the 8-byte-number justification differs from the 4-byte one only in the width of the numbers *)
+CtPrimWidths == (hist = <<>> /\ part = "primjust") =>
+  \A j \in 1..Len(PrimJustVals(4)) :
+     Len(ScEnc(CtPrimJust(8), PrimJustVals(8)[j])) = Len(ScEnc(CtPrimJust(4), PrimJustVals(4)[j])) + 4 * (1 + Len(PrimJustVals(4)[j][2][3]))
 =============================================================================
